@@ -16,7 +16,7 @@ import time
 from collections import Counter
 
 from .common import (COQ, REPO, Report, TRUSTED_BASE, VERIF, check_props_file, eval_cases, load_known,
-                     make_coq, scan_forbidden)
+                     make_coq, run_coqchk, scan_forbidden)
 from .translate import srcspecs
 from .translate.srcspecs import SPECS as SRC_SPECS
 
@@ -285,6 +285,15 @@ class Check:
                                         corpus_cases=len(corpus), distribution=dict(dist),
                                         eval_s=round(eval_s, 1))
 
+        # thorough tier: the independent checker re-checks the compiled theorem file and all it depends on
+        chk = None
+        if tier == "thorough" and not proof_broken and not replay:
+            chk = run_coqchk(self.prop)
+            bad = (not chk["ok"]) or chk["axioms"] is None or any(chk.get(k) for k in ("type_in_type", "unsafe_fix", "assumed_positive"))
+            if bad:
+                proof_broken = True
+                pf["output"] = "coqchk: " + chk["output"]
+
         if proof_broken and not rep.violations:
             rep.violation(dict(kind="no-failing-input",
                                theorem_or_correspondence=f"proof obligations of coq/Props/{self.prop}.v (build ok={ok}, file ok={pf['ok']}, theorems with Print Assumptions={obligations})",
@@ -303,6 +312,10 @@ class Check:
             disagreements_checked=tot["corr_bad"], correspondence_disagreements=tot["corr_bad"],
             oracle_failures_attributed_to_known_findings=tot["attributed"],
             parts=cov_parts, build_s=round(build_s, 1), regenerated_facts=pre_note,
+            coqchk=(dict(cmd=f"coqchk -silent -Q coq CG -o CG.Props.{self.prop}", ok=chk["ok"], axioms=chk["axioms"],
+                         type_in_type=chk["type_in_type"], unsafe_fixpoints=chk["unsafe_fix"],
+                         assumed_positive=chk["assumed_positive"], seconds=chk["seconds"]) if chk else
+                    "thorough tier only"),
             source_translation=dict(file="coq/Gen/Source.v", translator="harness/translate/pysrc.py",
                                     functions=[sp["name"] for sp in SRC_SPECS],
                                     untranslatable=src_errors,
